@@ -530,7 +530,7 @@ func runAPI(in apiCase, interval time.Duration) (apiCase, bool) { //nolint:gocog
 			if in.Sentinel >= 0 {
 				select {
 				case <-sCh:
-				case <-time.After(300 * time.Millisecond): // no Write at all (the sentinel always has a new gap): recorded as is
+				case <-time.After(300*time.Millisecond + 2*interval): // no Write at all (the sentinel always has a new gap): recorded as is
 				}
 			} else {
 				time.Sleep(3 * interval)
@@ -589,7 +589,9 @@ func (c apiCase) optList() [][2]int64 {
 
 func runAPIRetry(in apiCase) apiCase {
 	iv := 1 * time.Millisecond
-	for try := 0; try < 4; try++ {
+	// the last, long interval is for tick bodies that take hundreds of milliseconds (an implementation
+	// that requests tens of thousands of numbers with a limit: its pruning loop is quadratic)
+	for try := 0; try < 5; try++ {
 		c, ok := runAPI(in, iv)
 		if ok {
 			return c
@@ -768,8 +770,9 @@ func genOpts(r *rand.Rand, c *apiCase, bk map[string]bool) {
 // genAPICycle: the history shape around the 16-bit keys of the per-number NACK counters. A limit is
 // configured. A number X of stream 1111 is lost and requested at one or more ticks; then either it
 // is recovered / ages out of the window and a tick finds NOTHING missing for the stream (the
-// stream's counts are forgotten: X + 65536 is a new packet with a full budget), or no such tick
-// runs (known finding: the stale count is inherited). The stream then advances by exactly 65536
+// stream's counts are forgotten: X + 65536 is a new packet with a full budget), or it is recovered
+// while another number is missing and requested (that tick forgets the count of X), or neither
+// happens (known finding: the stale count is inherited). The stream then advances by exactly 65536
 // (or, as a control, 65535 / 65537 / 131072) in hops: a forward jump below 2^15, after which the late
 // packets of the whole window arrive in some order, so that a tick between two hops finds nothing
 // missing (or one hole, which is requested). After the last hop X + 65536 is the only missing
@@ -844,17 +847,31 @@ func genAPICycle(r *rand.Rand) (apiCase, []string) { //nolint:gocognit,cyclop
 	}
 	reset := r.Intn(10)
 	switch {
-	case reset < 5:
+	case reset < 4:
 		recv(x) // recovered
 		tick()  // nothing missing
 		bk["cycle:reset-by-recovery+empty-tick"] = true
-	case reset < 8:
+	case reset < 6:
 		for i := int64(0); i < c.Size+c.Skip+1; i++ { // x ages out of the window, loss free
 			hi++
 			recv(hi)
 		}
 		tick()
 		bk["cycle:reset-by-ageing-out+empty-tick"] = true
+	case reset < 8:
+		// never a tick with nothing missing: another number y is lost, x is recovered, and the tick
+		// that requests y forgets the count of x (it is no longer missing)
+		y := hi + 1
+		for hi = y + 1; hi <= y+1+c.Skip; hi++ {
+			recv(hi)
+		}
+		hi--
+		recv(x)
+		tick()
+		if r.Intn(2) == 0 {
+			recv(y)
+		}
+		bk["cycle:count-pruned-by-sending-tick"] = true
 	default:
 		bk["cycle:no-empty-tick(known-finding-shape)"] = true
 	}
@@ -971,7 +988,7 @@ func genAPI(r *rand.Rand) (apiCase, []string) { //nolint:gocognit,cyclop
 	streams := []*st{}
 	for i := 0; i < nStreams; i++ {
 		s := &st{ssrc: int64(1111 * (i + 1)), mode: r.Intn(2)}
-		if r.Intn(6) == 0 {
+		if r.Intn(6) == 0 && !big { // half-range jumps fill a large window with tens of thousands of missing numbers
 			s.mode = 2
 		}
 		s.g = newArrGen(r, scale, bk)
